@@ -112,6 +112,10 @@ func c02Gen(rt *rapid.T) c02Case {
 		if rapid.IntRange(0, 5).Draw(rt, "manytables") == 0 {
 			cfg.MaxTables = 9
 		}
+		segStart := map[string]bool{}
+		for _, n := range db.TableNames() {
+			segStart[n] = true
+		}
 		var stmts []model.Stmt
 		if si == 0 && rapid.IntRange(0, 31).Draw(rt, "deep") == 13 {
 			stmts, c.Preload = c02Deep(rt, db)
@@ -135,6 +139,27 @@ func c02Gen(rt *rapid.T) c02Case {
 				gen.MustApply(db, cr)
 				stmts = append(stmts, cr)
 			}
+		}
+		if rapid.IntRange(0, 3).Draw(rt, "failing") == 0 {
+			// statements that are refused in between: they returned no success, so they
+			// must leave no trace - not in the tables, and not in what recovery does later
+			known := map[string]bool{}
+			var out []model.Stmt
+			for _, s := range stmts {
+				out = append(out, s)
+				known[s.Table] = true
+				if rapid.IntRange(0, 5).Draw(rt, "failhere") == 0 {
+					var names []string
+					for _, n := range db.TableNames() {
+						if known[n] || segStart[n] {
+							names = append(names, n)
+						}
+					}
+					f := gen.FailingInsert(rt, db.Tables[names[rapid.IntRange(0, len(names)-1).Draw(rt, "failtbl")]])
+					out = append(out, f)
+				}
+			}
+			stmts = out
 		}
 		for i := range stmts {
 			switch flushMode {
@@ -203,15 +228,32 @@ func c02Run(c c02Case, st *vlib.Stats) string {
 	tr := NewIDTracker()
 	var labels []string
 	mixed, hasMut, images := false, false, 0
+	hasRefused := false
 	for si, seg := range c.Segments {
 		flushedSomething := false
 		for i, s := range seg.Stmts {
-			kind, merr := m.Apply(s)
-			if merr != nil || kind != model.OK {
-				return fmt.Sprintf("case is not valid in the model (segment %d statement %d: %v %v)", si, i, kind, merr)
-			}
-			if err := eng.ExecStmt(s); err != nil {
-				return fmt.Sprintf("segment %d statement %d is valid but was refused: %v\n  %s", si, i, err, s)
+			if s.Fails {
+				if kind, _ := m.Apply(s); kind == model.OK {
+					return fmt.Sprintf("harness: the statement meant to fail is valid in the model (segment %d statement %d)", si, i)
+				}
+				err := eng.ExecStmt(s)
+				if err == nil {
+					// refusing it is C08's and C14's subject, not this property's: nothing to conclude here
+					st.Label("case-dropped(invalid statement accepted)", 1)
+					return ""
+				}
+				if mk.IsPanic(err) {
+					return fmt.Sprintf("segment %d statement %d: %v\n  %s", si, i, err, s)
+				}
+				hasRefused = true
+			} else {
+				kind, merr := m.Apply(s)
+				if merr != nil || kind != model.OK {
+					return fmt.Sprintf("case is not valid in the model (segment %d statement %d: %v %v)", si, i, kind, merr)
+				}
+				if err := eng.ExecStmt(s); err != nil {
+					return fmt.Sprintf("segment %d statement %d is valid but was refused: %v\n  %s", si, i, err, s)
+				}
 			}
 			if s.Kind == "update" || s.Kind == "delete" {
 				hasMut = true
@@ -342,6 +384,9 @@ func c02Run(c c02Case, st *vlib.Stats) string {
 	}
 	if c.Preload > 0 {
 		labels = append(labels, "deep-tree(three levels)")
+	}
+	if hasRefused {
+		labels = append(labels, "refused-statements-in-between")
 	}
 	st.AddExtra("crash_images_recovered", images+2*len(c.Segments))
 	st.Record(b, mixed && hasMut, labels...)
